@@ -7,6 +7,7 @@ import Proofs.TagLen
 import Proofs.RoundTrip
 import Proofs.TagReject
 import Proofs.Kernels
+import Proofs.KernelWrap
 
 namespace Asn1.C13
 
@@ -24,6 +25,23 @@ theorem source_identifier_roundtrip (t : Tag) (isConstructed : Bool) (rest : Byt
     ∃ b : Bytes, GenK.encodeTag (Kernels.tagTriple t) isConstructed = .ok (Kernels.bytesInts b) ∧
       decodeTag (b ++ rest) = .ok (⟨t.cls, t.constructed || isConstructed, t.num⟩, rest) :=
   ⟨encodeTag t isConstructed, Kernels.encodeTag_kernel t isConstructed, decodeTag_encodeTag t isConstructed rest⟩
+
+/-- **one header per tag, at the source level**: the loop of `AbstractItemEncoder.encode` over `tagSet.superTags`
+    (ber/encoder.py; translated from /repo on this run into `GenK.wrapTags`, which calls the translated `encodeTag` and
+    `encodeLength`; `encodeValue`'s answer is its argument) is the model's `wrapTags` - for every non-empty tag set,
+    substrate, `defMode`, `supportIndefLenMode` and `ifNotEmpty`.  Everything proved about `wrapTags`
+    (`wire_tags_are_type_tags` below, the round trips of C01/C02, and finding E1, which lives in this loop) is thereby a
+    statement about the loop as it is in the source now. -/
+theorem source_header_loop_is_model (indefOk ifNotEmpty defMode isCons isOct : Bool) (t : Tag) (ts : List Tag) (sub : Bytes) :
+    GenK.wrapTags indefOk ifNotEmpty ((t :: ts).map Kernels.tagTriple) defMode (Kernels.bytesInts sub) isCons isOct =
+      Kernels.liftLen (if sub.isEmpty && isCons && ifNotEmpty then .ok []
+                       else wrapTags indefOk defMode isCons true (t :: ts) sub) :=
+  Kernels.wrapTags_kernel indefOk ifNotEmpty defMode isCons isOct t ts sub
+
+/-- INTEGER 5 under [0] EXPLICIT, definite mode: `a0 03 02 01 05`; and finding E1 as the source has it: indefinite mode
+    over an encoder without indefinite lengths writes a definite length and still appends end-of-octets -/
+example : GenK.wrapTags false false [[0, 0, 2], [128, 32, 0]] true [5] false false = .ok [160, 3, 2, 1, 5] := by rfl
+example : GenK.wrapTags false false [[0, 0, 2], [128, 32, 0]] false [5] false false = .ok [160, 3, 2, 1, 5, 0, 0] := by rfl
 
 /-- explicit tagging refuses the UNIVERSAL class -/
 theorem explicit_refuses_universal (ts : TagSet) (num : Nat) :
